@@ -258,6 +258,9 @@ def _live_after(fnode, s, name):
             if r == 'live':
                 return True
             if r is None:
+                if isinstance(s, ast.For) and any(isinstance(x, ast.Name) and x.id == name for x in ast.walk(s.target)) and \
+                        not any(isinstance(x, ast.Name) and x.id == name for x in ast.walk(s.iter)):
+                    return False     # s is a for loop over this very name: re-entering it assigns the name first
                 return True      # reaches s again unassigned: the loop carries it
     return False
 
@@ -1510,10 +1513,46 @@ class Interp:
         ast.fix_missing_locations(outer)
         return outer
 
+    def _synced_for(self, s):
+        """`for k in range(c, n): BODY; c += 1` where the counter c is the range's own start and nothing else changes c or
+        k: k == c throughout, so this is `while c < n: BODY[k := c]; c += 1` (a run scanned with a for loop and a counter
+        kept in step with it).  Only without `continue`."""
+        it = s.iter
+        if not (isinstance(it, ast.Call) and isinstance(it.func, ast.Name) and it.func.id in ('range', 'prange') and len(it.args) == 2
+                and not it.keywords and isinstance(s.target, ast.Name) and isinstance(it.args[0], ast.Name)) or s.orelse or not s.body:
+            return None
+        k_, c_ = s.target.id, it.args[0].id
+        last = s.body[-1]
+        if k_ == c_ or not (isinstance(last, ast.AugAssign) and isinstance(last.op, ast.Add) and isinstance(last.target, ast.Name) and
+                            last.target.id == c_ and isinstance(last.value, ast.Constant) and last.value.value == 1):
+            return None
+        for b_ in s.body[:-1]:
+            for x in ast.walk(b_):
+                if isinstance(x, ast.Continue) or (isinstance(x, ast.Name) and isinstance(x.ctx, ast.Store) and x.id in (k_, c_)):
+                    return None
+        if any(isinstance(x, ast.Name) and x.id in (k_, c_) for x in ast.walk(it.args[1])):
+            return None
+        if _live_after(self.func.node, s, k_):
+            return None
+
+        class R(ast.NodeTransformer):
+            def visit_Name(self, n):
+                return ast.copy_location(ast.Name(id=c_, ctx=n.ctx), n) if n.id == k_ else n
+        import copy
+        body = [R().visit(copy.deepcopy(b_)) for b_ in s.body[:-1]] + [last]
+        new = ast.While(test=ast.Compare(left=ast.Name(id=c_, ctx=ast.Load()), ops=[ast.Lt()], comparators=[it.args[1]]), body=body, orelse=[])
+        ast.copy_location(new, s)
+        ast.fix_missing_locations(new)
+        return new
+
     def st_For(self, s):
         nd = self._nd_desugar(s) or self._fused_desugar(s)
         if nd is not None:
             return self.st_For(nd)
+        sw = self._synced_for(s)
+        if sw is not None:
+            self._no_counted = getattr(self, '_no_counted', set()) | {id(sw)}
+            return self.st_While(sw)
         it = self.ev(s.iter)
         if isinstance(it, tuple) and it and it[0] == 'iter' and it[1] in ('range', 'prange'):
             args = [self.as_scalar(a, s) for a in it[2]]
@@ -1666,7 +1705,8 @@ class Interp:
             if self._elementwise(it) is not None:
                 return True
             return isinstance(it, tuple) and it and it[0] == 'iter' and it[1] in ('zip', 'enumerate') and any(has_ew(a) for a in it[2])
-        if not has_ew(it) and not rows_of:
+        if not has_ew(it) and not rows_of and not (getattr(self, 'index_arrays', False) and isinstance(it, tuple) and it and
+                                                   it[0] == 'iter' and it[1] == 'enumerate'):
             return None
         lengths = [ln for t_, (ln, mk) in p]
         return lengths[0], [(t_.id, mk) for t_, (ln, mk) in p if isinstance(t_, ast.Name)]
@@ -1770,6 +1810,8 @@ class Interp:
         """`i = a; while i < n [and extra]: BODY; i += 1` (or counting down) -> the `for i in range(a, n): if not extra: break;
         BODY` it spells out.  Only when the counter is changed by the last statement alone and no `continue` skips it."""
         tests = list(s.test.values) if isinstance(s.test, ast.BoolOp) and isinstance(s.test.op, ast.And) else [s.test]
+        if id(s) in getattr(self, '_no_counted', ()):
+            return None
         if s.orelse or not s.body or not isinstance(s.body[-1], ast.AugAssign) or not isinstance(s.body[-1].target, ast.Name):
             return None
         inc = s.body[-1]
@@ -2105,12 +2147,13 @@ def _read_before_write(stmts, name):
     return False
 
 
-def interpret(prog, func, args=None, strict=True, inline_depth=3, inline_procedures=False, inline_all=None):
+def interpret(prog, func, args=None, strict=True, inline_depth=3, inline_procedures=False, inline_all=None, index_arrays=False):
     """inline_all: None, or a predicate Func -> bool naming the package functions that are executed in place (phases
     of a split kernel); everything else keeps the default treatment (expression helpers folded, the rest call records)"""
     it = Interp(prog, func, args, strict=strict, inline_depth=inline_depth)
     it.inline_procedures = inline_procedures
     it.inline_all = inline_all
+    it.index_arrays = index_arrays      # `for i, v in enumerate(array)` as the index loop it is (opt-in: table rules read the generic form)
     for p, dnode in func.defaults().items():
         pass
     return it.run()
